@@ -1,1 +1,243 @@
-pub fn run(_out: &str, _polls: usize, _schedule: Option<String>) {}
+//! Layer B slice for one acknowledgement: every interleaving of `done()` with the polls of one or more tasks,
+//! executed on the REAL `CommandAcknowledgement` under the cooperative scheduler (schedule points inside
+//! `done()` and `poll()`), one line per explored schedule prefix, in the vocabulary of `CachedModel/Ack.lean`.
+use std::sync::{Arc, Mutex};
+use std::task::{Context, Poll, Wake, Waker};
+use std::time::Duration;
+
+use tinylfu_cached::cache::command::acknowledgement::CommandAcknowledgement;
+use tinylfu_cached::cache::command::CommandStatus;
+use tinylfu_cached::cache::verif;
+
+use crate::engine::status_str;
+use crate::Sink;
+
+const TIMEOUT: Duration = Duration::from_secs(10);
+
+struct IdWaker {
+    id: usize,
+    log: Arc<Mutex<Vec<usize>>>,
+}
+
+impl Wake for IdWaker {
+    fn wake(self: Arc<Self>) { self.log.lock().unwrap().push(self.id); }
+    fn wake_by_ref(self: &Arc<Self>) { self.log.lock().unwrap().push(self.id); }
+}
+
+#[derive(Clone, Debug, PartialEq)]
+pub enum Act {
+    SetStatus,
+    SetFlag,
+    Wake,
+    LockRegister(usize, usize),
+    LoadFlag(usize),
+    FinishPoll(usize),
+}
+
+impl Act {
+    fn text(&self) -> String {
+        match self {
+            Act::SetStatus => "ss".to_string(),
+            Act::SetFlag => "sf".to_string(),
+            Act::Wake => "w".to_string(),
+            Act::LockRegister(p, w) => format!("lr:{}:{}", p, w),
+            Act::LoadFlag(p) => format!("lf:{}", p),
+            Act::FinishPoll(p) => format!("fp:{}", p),
+        }
+    }
+    fn parse(text: &str) -> Option<Act> {
+        let parts: Vec<&str> = text.split(':').collect();
+        Some(match parts[0] {
+            "ss" => Act::SetStatus,
+            "sf" => Act::SetFlag,
+            "w" => Act::Wake,
+            "lr" => Act::LockRegister(parts[1].parse().ok()?, parts[2].parse().ok()?),
+            "lf" => Act::LoadFlag(parts[1].parse().ok()?),
+            "fp" => Act::FinishPoll(parts[1].parse().ok()?),
+            _ => return None,
+        })
+    }
+}
+
+pub struct Observation {
+    pub line: String,
+    pub enabled: Vec<Act>,
+    pub hang: Option<String>,
+}
+
+fn grant_and_settle(role: &str) -> Result<verif::ThreadView, String> {
+    let seq = verif::grant(role).ok_or_else(|| format!("{} is not parked", role))?;
+    verif::wait_settled(role, seq, TIMEOUT).ok_or_else(|| format!("{} did not reach its next schedule point", role))
+}
+
+/// Executes `schedule` on a fresh acknowledgement with `pollers` tasks of `polls` polls each.
+/// `wakers[p][j]` is the waker identity poller `p` uses for its `j`-th poll.
+pub fn execute(status: CommandStatus, pollers: usize, polls: usize, wakers: &[Vec<usize>], schedule: &[Act]) -> Observation {
+    verif::reset(true, false);
+    verif::set_default_stop_all(true);
+    let ack = CommandAcknowledgement::verif_new();
+    let wake_log = Arc::new(Mutex::new(Vec::new()));
+    let results: Arc<Mutex<Vec<Vec<String>>>> = Arc::new(Mutex::new(vec![Vec::new(); pollers]));
+    let mut threads = Vec::new();
+    {
+        let ack = ack.clone();
+        threads.push(std::thread::Builder::new().name("completer".to_string()).spawn(move || {
+            let _registration = verif::register("completer");
+            verif::point("t.start");
+            ack.verif_done(status);
+        }).unwrap());
+    }
+    for p in 0..pollers {
+        let (ack, wake_log, results) = (ack.clone(), wake_log.clone(), results.clone());
+        let my_wakers = wakers[p].clone();
+        threads.push(std::thread::Builder::new().name(format!("p{}", p)).spawn(move || {
+            let _registration = verif::register(&format!("p{}", p));
+            for j in 0..polls {
+                verif::point("poll.begin");
+                let waker = Waker::from(Arc::new(IdWaker { id: my_wakers[j], log: wake_log.clone() }));
+                let mut context = Context::from_waker(&waker);
+                let mut handle = ack.handle();
+                let outcome = match std::future::Future::poll(std::pin::Pin::new(&mut handle), &mut context) {
+                    Poll::Ready(status) => format!("ready:{}", status_str(&status)),
+                    Poll::Pending => "pending".to_string(),
+                };
+                results.lock().unwrap()[p].push(outcome);
+            }
+            verif::point("poll.end");
+        }).unwrap());
+    }
+    let mut hang = None;
+    let mut settle = |role: &str| -> bool {
+        match verif::wait_settled(role, 0, TIMEOUT) { Some(_) => true, None => { false } }
+    };
+    if !settle("completer") { hang = Some("completer did not start".to_string()); }
+    for p in 0..pollers { if !settle(&format!("p{}", p)) { hang = Some(format!("poller {} did not start", p)); } }
+    // the completer moves from its start point to the first action of done()
+    if hang.is_none() {
+        if let Err(why) = grant_and_settle("completer") { hang = Some(why); }
+    }
+    let mut polls_started = vec![0usize; pollers];
+    let mut executed = 0;
+    for act in schedule {
+        if hang.is_some() { break; }
+        let outcome = match act {
+            Act::SetStatus | Act::SetFlag | Act::Wake => grant_and_settle("completer").map(|_| ()),
+            Act::LockRegister(p, _) => {
+                let role = format!("p{}", p);
+                polls_started[*p] += 1;
+                // poll.begin -> poll.lock -> poll.register -> poll.flag
+                grant_and_settle(&role).and_then(|_| grant_and_settle(&role)).and_then(|_| grant_and_settle(&role)).map(|_| ())
+            }
+            Act::LoadFlag(p) | Act::FinishPoll(p) => grant_and_settle(&format!("p{}", p)).map(|_| ()),
+        };
+        match outcome {
+            Ok(()) => executed += 1,
+            Err(why) => hang = Some(format!("{} while executing {}", why, act.text())),
+        }
+    }
+    let _ = executed;
+    // observe
+    let at = |role: &str| verif::view(role).map(|view| if view.finished { "finished" } else { view.parked_at.unwrap_or("running") }).unwrap_or("unknown");
+    let holds = verif::holds();
+    let lock_owner = holds.iter().find(|(lock, _)| lock.starts_with("ackwaker")).map(|(_, owner)| owner.clone());
+    let (flag, status_now, waker_present) = ack.verif_peek();
+    let mut enabled = Vec::new();
+    if hang.is_none() {
+        match at("completer") {
+            "ack.status" => enabled.push(Act::SetStatus),
+            "ack.flag" => enabled.push(Act::SetFlag),
+            "ack.wake" => if lock_owner.is_none() { enabled.push(Act::Wake) },
+            _ => {}
+        }
+        for p in 0..pollers {
+            match at(&format!("p{}", p)) {
+                "poll.begin" => if lock_owner.is_none() { enabled.push(Act::LockRegister(p, wakers[p][polls_started[p].min(polls - 1)])) },
+                "poll.flag" => enabled.push(Act::LoadFlag(p)),
+                "poll.status" => enabled.push(Act::FinishPoll(p)),
+                _ => {}
+            }
+        }
+    }
+    let results_text = results.lock().unwrap().iter().map(|r| r.join(",")).collect::<Vec<_>>().join("|");
+    let wakes_text = wake_log.lock().unwrap().iter().map(|w| w.to_string()).collect::<Vec<_>>().join(",");
+    let line = format!("R ack results={} wakes={} flag={} status={} slot={} lock={} cpc={}",
+        results_text, wakes_text, flag as u8, status_str(&status_now), waker_present.map(|present| (present as u8).to_string()).unwrap_or("-".to_string()),
+        lock_owner.clone().map(|owner| owner.trim_start_matches('p').to_string()).unwrap_or("-".to_string()),
+        match at("completer") { "ack.status" => "beforeStatus", "ack.flag" => "beforeFlag", "ack.wake" => "beforeWake", "finished" => "finished", other => other });
+    // tear down
+    verif::release_all();
+    for thread in threads { let _ = thread.join(); }
+    Observation { line, enabled, hang }
+}
+
+fn status_of(text: &str) -> CommandStatus {
+    match text {
+        "accepted" => CommandStatus::Accepted,
+        "shuttingdown" => CommandStatus::ShuttingDown,
+        "rejected:nospace" => CommandStatus::Rejected(tinylfu_cached::cache::command::RejectionReason::EnoughSpaceIsNotAvailableAndKeyFailedToEvictOthers),
+        "rejected:exists" => CommandStatus::Rejected(tinylfu_cached::cache::command::RejectionReason::KeyAlreadyExists),
+        _ => CommandStatus::Rejected(tinylfu_cached::cache::command::RejectionReason::KeyDoesNotExist),
+    }
+}
+
+fn explore(sink: &mut Sink, status_text: &str, pollers: usize, polls: usize, wakers: &[Vec<usize>], prefix: &mut Vec<Act>, count: &mut usize, limit: usize) -> bool {
+    if *count >= limit { return true; }
+    let observation = execute(status_of(status_text), pollers, polls, wakers, prefix);
+    *count += 1;
+    let schedule_text = prefix.iter().map(|a| a.text()).collect::<Vec<_>>().join(" ");
+    use std::io::Write;
+    writeln!(sink.input, "A {} {} | {}", status_text, pollers, schedule_text).unwrap();
+    writeln!(sink.implementation, "{}", observation.line).unwrap();
+    if let Some(why) = observation.hang {
+        sink.both(&format!("# hang {}", why.replace(' ', "_")));
+        return false;
+    }
+    for act in observation.enabled {
+        prefix.push(act);
+        let ok = explore(sink, status_text, pollers, polls, wakers, prefix, count, limit);
+        prefix.pop();
+        if !ok { return false; }
+    }
+    true
+}
+
+pub fn run(out: &str, polls: usize, schedule: Option<String>) {
+    let mut sink = Sink::new(out);
+    if let Some(schedule) = schedule {
+        // replay of one schedule: "status pollers polls | acts"
+        let (head, acts) = schedule.split_once('|').unwrap_or((schedule.as_str(), ""));
+        let head: Vec<&str> = head.split_whitespace().collect();
+        let (status_text, pollers) = (head[0], head[1].parse::<usize>().unwrap_or(1));
+        let acts: Vec<Act> = acts.split_whitespace().filter_map(Act::parse).collect();
+        let polls = acts.iter().filter(|a| matches!(a, Act::LockRegister(..))).count().max(1);
+        let wakers: Vec<Vec<usize>> = (0..pollers).map(|p| {
+            let mine: Vec<usize> = acts.iter().filter_map(|a| if let Act::LockRegister(q, w) = a { if *q == p { Some(*w) } else { None } } else { None }).collect();
+            let mut padded = mine.clone();
+            while padded.len() < polls { padded.push(100 + p); }
+            padded
+        }).collect();
+        let observation = execute(status_of(status_text), pollers, polls, &wakers, &acts);
+        sink.both("# case ack replay");
+        use std::io::Write;
+        writeln!(sink.input, "A {} {} | {}", status_text, pollers, acts.iter().map(|a| a.text()).collect::<Vec<_>>().join(" ")).unwrap();
+        writeln!(sink.implementation, "{}", observation.line).unwrap();
+        sink.flush();
+        return;
+    }
+    let limit: usize = std::env::var("VERIF_ACK_LIMIT").ok().and_then(|s| s.parse().ok()).unwrap_or(usize::MAX);
+    // (pollers, polls each, waker identities per poll)
+    let mut plans: Vec<(usize, usize, Vec<Vec<usize>>, &str)> = vec![
+        (1, polls, vec![(0..polls).map(|j| 5 + j % 2 * 3).collect()], "accepted"),           // one task, the waker changes between polls
+        (1, polls, vec![vec![7; polls]], "rejected:nospace"),                                   // one task, same waker
+        (2, 1, vec![vec![5], vec![6]], "accepted"),
+    ];
+    if polls >= 3 { plans.push((2, 2, vec![vec![5, 8], vec![6, 6]], "shuttingdown")); }
+    for (pollers, polls_each, wakers, status_text) in plans {
+        sink.both(&format!("# case ack pollers={} polls={} status={}", pollers, polls_each, status_text));
+        let mut count = 0;
+        let mut prefix = Vec::new();
+        if !explore(&mut sink, status_text, pollers, polls_each, &wakers, &mut prefix, &mut count, limit) { break; }
+        sink.both(&format!("# explored {}", count));
+    }
+    sink.flush();
+}
